@@ -233,8 +233,15 @@ def fill_holes(mesh):
             return [hole], []
         # the hole is a quad, which we fill with two triangles
         if len(hole) == 4:
-            face_A = hole[[0, 1, 2]]
-            face_B = hole[[2, 3, 0]]
+            # a quad can be split along either diagonal but if one of them
+            # is already an edge of the mesh re-using it makes that edge
+            # non-manifold so split along the other one
+            if tuple(sorted((int(hole[0]), int(hole[2])))) in existing_edges:
+                face_A = hole[[1, 2, 3]]
+                face_B = hole[[3, 0, 1]]
+            else:
+                face_A = hole[[0, 1, 2]]
+                face_B = hole[[2, 3, 0]]
             return [face_A, face_B], []
         return [], []
 
@@ -246,6 +253,9 @@ def fill_holes(mesh):
 
     # we know that in a watertight mesh every edge will be included twice
     # thus every edge which appears only once is part of a hole boundary
+    # every edge currently in the mesh for checking quad diagonals
+    existing_edges = set(map(tuple, mesh.edges_sorted.tolist()))
+
     boundary_groups = group_rows(mesh.edges_sorted, require_count=1)
 
     # mesh is not watertight and we have too few edges
